@@ -136,6 +136,21 @@ def history_job(job):
     return out
 
 
+SEGMENT_OK = __import__("re").compile(r"^[A-Za-z0-9_.\-]+$")
+
+
+def key_layout_problem(key, office="S", unit_type="county"):
+    """the documented layout: <root>/<election id>/<kind>/<office>/<unit type>/... with plain path segments"""
+    parts = key.split("/")
+    if any(not SEGMENT_OK.match(x) for x in parts):
+        return "a path segment holds characters outside [A-Za-z0-9_.-]"
+    if len(parts) < 6 or parts[0] != ROOT or parts[1] != gen.ELECTION_ID:
+        return f"not under {ROOT}/{gen.ELECTION_ID}/"
+    if parts[2] not in ("results", "predictions", "gaussian") or parts[3] != office or parts[4] != unit_type:
+        return f"kind / office / unit type segments are {parts[2:5]}, expected <results|predictions|gaussian>/{office}/{unit_type}"
+    return None
+
+
 def classify_put(key):
     if key.endswith("/current_counties.csv") and "/results/" in key:
         return "PutLiveCounties"
@@ -201,10 +216,10 @@ def run(chk):
                 chk.violation(f"configuration {o['job'][1:]}: unexpected remote key {k!r}", replay, {"kind": "unknown-key"})
                 continue
             events.append(ev)
-            if any(c.isspace() for c in k) or not k.startswith(f"{ROOT}/{gen.ELECTION_ID}/"):
+            if any(c.isspace() for c in k) or not k.startswith(f"{ROOT}/{gen.ELECTION_ID}/") or key_layout_problem(k):
                 bad_key = k
         if bad_key is not None:
-            chk.violation(f"remote key {bad_key!r} contains whitespace or is not under {ROOT}/{gen.ELECTION_ID}/", replay, {"kind": "bad-key"})
+            chk.violation(f"remote key {bad_key!r} contains whitespace or does not follow the layout {ROOT}/{gen.ELECTION_ID}/<kind>/<office>/<unit type>/... ({key_layout_problem(bad_key)})", replay, {"kind": "bad-key"})
         est = {"nonparametric": "Nonparametric", "gaussian": "Gaussian", "bootstrap": "Bootstrap"}[pi]
         cfgv = (f"{{| c_results := {core.blit('results' in save)}; c_data := {core.blit('data' in save)}; c_config := {core.blit('config' in save)}; "
                 f"c_conf := {core.blit('conformalization' in save)}; c_local := {core.blit(local)}; c_estimator := {est}; "
